@@ -1,6 +1,7 @@
 package main
 
 import (
+	"bytes"
 	"os"
 	crand "crypto/rand"
 	"math/big"
@@ -150,6 +151,45 @@ func certZoo() []ZooCert {
 					}
 					t.RawSubject = rawSubject(p.base, nil)
 					issueT("unknown-eku", fmt.Sprintf("%s-%d-%d", p.name, vi, ui), t)
+				}
+			}
+		}
+	}
+	// (1c) S/MIME certificates: rfc822Names of every shape in the SAN (no '@', empty local part or domain, two '@', upper
+	// case, non-ASCII, SmtpUTF8Mailbox otherName) against mailbox addresses in the subject (emailAddress attribute, common name)
+	{
+		mails := []string{"a@example.com", "postmaster", "", "@", "a@", "@example.com", "A@EXAMPLE.COM", "a b@example.com", "a@b@example.com", "caf\xc3\xa9@example.com", "a@example.com."}
+		for pi, p := range scopeProfiles() {
+			if !strings.HasPrefix(p.name, "smime-") && p.name != "no-policy-email-eku" {
+				continue
+			}
+			for mi, m := range mails {
+				for v := 0; v < 3; v++ {
+					t := leafTemplate()
+					t.NotBefore = time.Date(2024, 10, 1, 0, 0, 0, 0, time.UTC)
+					t.NotAfter = time.Date(2025, 3, 1, 0, 0, 0, 0, time.UTC)
+					p.apply(t)
+					t.EmailAddresses = nil
+					names := []genName{{1, []byte(m)}}
+					attrs := append([]subjAttr{}, p.base...)
+					switch v {
+					case 0: // the subject carries a proper mailbox address, the SAN the odd one
+						attrs = append(attrs, sa("emailAddress", "a@example.com"))
+					case 1: // the same odd value on both sides, plus a proper rfc822Name
+						attrs = append(attrs, sa("emailAddress", m))
+						names = append(names, genName{1, []byte("a@example.com")})
+					case 2: // mailbox in the common name, odd rfc822Name after a proper one
+						attrs = []subjAttr{sa("commonName", "a@example.com")}
+						names = []genName{{1, []byte("a@example.com")}, {1, []byte(m)}}
+					}
+					if (pi+mi+v)%3 == 0 {
+						// id-on-SmtpUTF8Mailbox otherName: [0] { OID 1.3.6.1.5.5.7.8.9, [0] UTF8String }
+						on := concat(encTLV(0x06, []byte{0x2b, 0x06, 0x01, 0x05, 0x05, 0x07, 0x08, 0x09}), encTLV(0xa0, encTLV(0x0c, []byte(m))))
+						names = append(names, genName{0, on})
+					}
+					t.RawSubject = rawSubject(attrs, nil)
+					t.ExtraExtensions = append(t.ExtraExtensions, generalNamesExt(asn1SAN, names, false))
+					issueT("smime-mail", fmt.Sprintf("%s-%d-%d", p.name, mi, v), t)
 				}
 			}
 		}
@@ -543,21 +583,23 @@ func crlZoo() []CorpusCRL {
 			e := stdx509.RevocationListEntry{SerialNumber: big.NewInt(serial), RevocationTime: tmpl.ThisUpdate.Add(-time.Duration(j+1) * time.Hour)}
 			switch {
 			case j == 0:
-				e.ReasonCode = 0
-				e.ExtraExtensions = append(e.ExtraExtensions, pkix.Extension{Id: asn1.ObjectIdentifier{2, 5, 29, 21}, Value: []byte{0x0a, 0x01, 0x00}})
+				e.ReasonCode = 2 // rewritten to 0 in the DER below (crypto/x509 refuses to emit an explicit 0)
 			case j%5 == 1:
 				e.ReasonCode = []int{1, 3, 4, 5, 9}[j%5]
 			}
 			tmpl.RevokedCertificateEntries = append(tmpl.RevokedCertificateEntries, e)
 		}
-		tmpl.RevokedCertificateEntries = append(tmpl.RevokedCertificateEntries, stdx509.RevocationListEntry{SerialNumber: big.NewInt(7), RevocationTime: tmpl.ThisUpdate.Add(-time.Hour),
-			ExtraExtensions: []pkix.Extension{{Id: asn1.ObjectIdentifier{2, 5, 29, 21}, Value: []byte{0x0a, 0x01, 0x07}}}})
+		tmpl.RevokedCertificateEntries = append(tmpl.RevokedCertificateEntries, stdx509.RevocationListEntry{SerialNumber: big.NewInt(7), RevocationTime: tmpl.ThisUpdate.Add(-time.Hour), ReasonCode: 7})
 		if li == 1 {
 			tmpl.RevokedCertificateEntries = append(tmpl.RevokedCertificateEntries, tmpl.RevokedCertificateEntries[3])
 		}
 		der, err := stdx509.CreateRevocationList(crand.Reader, tmpl, k.caCert, k.caKey)
 		if err != nil {
 			continue
+		}
+		// the first reasonCode extension (2.5.29.21, OCTET STRING { ENUMERATED 2 }) becomes ENUMERATED 0
+		if i := bytes.Index(der, []byte{0x06, 0x03, 0x55, 0x1d, 0x15, 0x04, 0x03, 0x0a, 0x01, 0x02}); i >= 0 {
+			der[i+9] = 0
 		}
 		if crl, err := safeParseCRL(der); err == nil {
 			crlZooCache = append(crlZooCache, CorpusCRL{fmt.Sprintf("zoo-crl-large-%d", n), der, crl})
